@@ -16,7 +16,7 @@ def alone_equals_all(a, b, r_all):
 
 def run(rep, ctx):
     run_render(rep, ctx, 'c01', [('page-plus-markers', rc.c01_failures), ('alone-vs-all', alone_equals_all)],
-               n_quick=500, n_thorough=8000, identity=True, big=True)
+               n_quick=500, n_thorough=8000, identity=True, big=True, small_caps=True)
 
 
 def replay(rep, data):
